@@ -108,6 +108,10 @@ def gen_target(rnd, t):
     if rnd.random() < 0.05:
         # siblings whose NAME extends the root's name (outer/rootx, outer/root.html): a path that lost its leading separator names them
         return rnd.choice(["//", "///", "//", "", "/./", "/.//", "//./"]) + rnd.choice(["x/leak.txt", ".html", "x/leak.txt?q=1#f", ".html#x", "x", "x/"])
+    htmls = [e[1][len("outer/root"):] for e in t.ents if e[0] == "F" and e[1].startswith("outer/root/") and e[1].endswith(".html") and not e[1].endswith("/index.html")]
+    if htmls and rnd.random() < 0.12:
+        # the third step of the documented lookup, on its own weight: the page is requested without its ".html"
+        return rnd.choice(htmls)[:-5] + rnd.choice(["", "", "", "?x=1", "#top"])
     dotted = [x for x in inroot if ".." in x]
     if dotted and rnd.random() < 0.4:
         # a harmless name with consecutive dots first, a real climb after it (a check that stops at the first occurrence)
